@@ -178,6 +178,23 @@ func c19Programs(thorough bool) []c19Prog {
 		}
 		out = append(out, c19Prog{Name: fmt.Sprintf("errors/%03x", mask), Src: strings.Join(parts, "\n")})
 	}
+	// the same function errors reached through calls (the topological sort decides the order they are seen in)
+	calls := []string{"f1(u1)", "f2(u2)", "f3(u3)", "f4(u4)"}
+	for mask := 1; mask < 1<<len(errFuncs); mask++ {
+		var defs, cs, rev []string
+		for i := range errFuncs {
+			if mask&(1<<i) != 0 {
+				defs = append(defs, errFuncs[i])
+				cs = append(cs, calls[i])
+				rev = append([]string{calls[i]}, rev...)
+			}
+		}
+		if len(defs) < 2 {
+			continue
+		}
+		out = append(out, c19Prog{Name: fmt.Sprintf("errors-called/%x", mask), Src: strings.Join(defs, "\n") + "\nfunction top() { " + strings.Join(cs, "; ") + " }\nBEGIN { top() }"})
+		out = append(out, c19Prog{Name: fmt.Sprintf("errors-called-rev/%x", mask), Src: "function top() { " + strings.Join(rev, "; ") + " }\n" + strings.Join(defs, "\n") + "\nfunction mid() { top(); " + cs[0] + " }\nBEGIN { mid() }"})
+	}
 	valid := []string{
 		"function a(x) { return b(x) } function b(y) { return c(y) } function c(z) { z[1] = 1; return length(z) } BEGIN { print a(arr), arr[1] }",
 		"function a(x) { return b(x) + c(x) } function b(y) { return d(y) } function c(y) { return d(y) } function d(z) { z[\"k\"]++; return z[\"k\"] } BEGIN { print a(g); print g[\"k\"] }",
@@ -328,6 +345,43 @@ func c19FirstDiff(a, b string) string {
 
 // ---------------------------------------------------------------- (2) immutability
 
+// c19ImmutableEval: deep dump of the Program and of every package-level
+// variable around two rounds of executions (second round in the other order).
+func c19ImmutableEval(c *core.Ctx, dir string, prog *parser.Program, cs c19Case) {
+	before := c19Fingerprint(prog) + c19Disasm(prog) + "deep:\n" + vexp.DeepDump(prog)
+	single := ""
+	inputs := []string{"a b c\n", "1 2\n3 4\n5"}
+	var globals [2]string
+	for round := 0; round < 2; round++ {
+		for i := range inputs {
+			in := inputs[i]
+			if round == 1 {
+				in = inputs[len(inputs)-1-i] // other order: state left behind by the last run differs
+			}
+			o := runImpl(prog, in, nil, dir, usesFiles(cs.Src), 200000)
+			c.Eval(1)
+			c.Add("transitions", 1)
+			if round == 0 {
+				single += o.String() + "\n"
+			} else {
+				single = strings.Replace(single, o.String()+"\n", "", 1)
+			}
+		}
+		globals[round] = vexp.DumpGlobals()
+	}
+	c.Add("states", 1)
+	after := c19Fingerprint(prog) + c19Disasm(prog) + "deep:\n" + vexp.DeepDump(prog)
+	if before != after {
+		c.Fail("immutable:program-modified-by-execution", cs, c19FirstDiff(before, after))
+	}
+	if globals[0] != globals[1] {
+		c.Fail("immutable:package-level-state-modified-by-execution", cs, c19FirstDiff(globals[0], globals[1]))
+	}
+	if single != "" {
+		c.Fail("immutable:repeated-execution-differs", cs, "second execution of the same Program gave different results: "+trunc(single, 300))
+	}
+}
+
 func c19Immutability(c *core.Ctx) {
 	dir := c01Dir(c)
 	f := func(pc progenum.Case) {
@@ -338,30 +392,13 @@ func c19Immutability(c *core.Ctx) {
 		if err != nil || pn != "" {
 			return
 		}
-		before := c19Fingerprint(prog) + c19Disasm(prog)
-		single := ""
-		for round := 0; round < 2; round++ {
-			for _, in := range []string{"a b c\n", "1 2\n3 4\n5"} {
-				o := runImpl(prog, in, nil, dir, usesFiles(pc.Src), 200000)
-				c.Eval(1)
-				c.Add("transitions", 1)
-				if round == 0 {
-					single += o.String() + "\n"
-				} else {
-					single = strings.Replace(single, o.String()+"\n", "", 1)
-				}
-			}
-		}
-		c.Add("states", 1)
-		after := c19Fingerprint(prog) + c19Disasm(prog)
-		cs := c19Case{Part: "immutable", Name: pc.Family + "/" + pc.Name, Src: pc.Src}
-		if before != after {
-			c.Fail("immutable:program-modified-by-execution", cs, c19FirstDiff(before, after))
-		}
-		if single != "" {
-			c.Fail("immutable:repeated-execution-differs", cs, "second execution of the same Program gave different results: "+trunc(single, 300))
-		}
+		c19ImmutableEval(c, dir, prog, c19Case{Part: "immutable", Name: pc.Family + "/" + pc.Name, Src: pc.Src})
 		c.Outcome(pc.Name)
+	}
+	for _, sp := range c19SharePrograms {
+		if sp.name != "native" {
+			f(progenum.Case{Family: "share", Name: sp.name, Src: sp.src})
+		}
 	}
 	progenum.EnumMisc(c.Thorough(), f)
 	progenum.EnumBuiltins(c.Thorough(), f)
@@ -382,6 +419,8 @@ var c19SharePrograms = []struct{ name, src string }{
 	{"getline", `BEGIN { while ((getline l) > 0) n += length(l); print n }`},
 	{"native", `BEGIN { print nat(1) + nat(2) }`},
 	{"dyn-regex", `{ if ($0 ~ "^" $1) m++ } END { print m }`},
+	{"dyn-and-literal-regex", `{ if ($0 ~ /b/) n++; if ($0 ~ ("^" $1)) m++; r = /c$/; sub(/a/, "x"); k += match($0, $2 ".") + split($0, parts, $1) } END { print n, m, r, k }`},
+	{"formats", `{ printf "%s-%d|", $1, NR; s = s sprintf("%c", $1); printf($2 "%s\n", NF) } END { print s }`},
 	{"sub-field", `{ sub(/a/, "X"); $2 = NR; print }`},
 	{"split-array", `{ n = split($0, parts); print parts[n] n }`},
 	{"local-array", `function f(la) { la[1] = 1; return length(la) } BEGIN { print f() f() }`},
@@ -506,22 +545,7 @@ func c19Replay(c *core.Ctx, raw json.RawMessage) {
 		if err != nil {
 			return
 		}
-		dir := c01Dir(c)
-		before := c19Fingerprint(prog) + c19Disasm(prog)
-		var first []string
-		for round := 0; round < 2; round++ {
-			for i, in := range []string{"a b c\n", "1 2\n3 4\n5"} {
-				o := runImpl(prog, in, nil, dir, usesFiles(cs.Src), 200000)
-				if round == 0 {
-					first = append(first, o.String())
-				} else if first[i] != o.String() {
-					c.Fail("immutable:repeated-execution-differs", cs, first[i]+" vs "+o.String())
-				}
-			}
-		}
-		if after := c19Fingerprint(prog) + c19Disasm(prog); after != before {
-			c.Fail("immutable:program-modified-by-execution", cs, c19FirstDiff(before, after))
-		}
+		c19ImmutableEval(c, c01Dir(c), prog, cs)
 	case "sharing":
 		funcs := map[string]any{"nat": func(x float64) float64 { return x * 10 }}
 		inputs := []string{"a b\nb c\n", "abc 2\n"}
@@ -542,10 +566,11 @@ func init() {
 		ID:    "C19",
 		Level: "model_checking",
 		Rule: "(1) map orders: for programs with 2-3 independent type errors (all such subsets of 9 error items), call-graph shapes, native+AWK function mixes and the repository's own sources, every map-range site executed by the resolver/compiler during ParseProgram is a choice point over a permutation menu (all n! for n<=3, else identity/reverse/rotations/adjacent swaps); all parses with <=1 (thorough <=2) non-sorted site executions; verdict, message+position, compiled code, constants, function table, printed source and disassembly must equal the sorted-order parse; " +
-			"(2) immutability: fingerprint of the Program before = after two rounds of executions (including failing ones) for the C01 misc/builtins/calls/control space, and the second round's results equal the first; " +
+			"(2) immutability: reflective deep dump of everything reachable from the *parser.Program (exported and unexported fields, spare slice capacity, compiled regexes) before = after two rounds of executions (including failing ones; second round with the inputs in the other order), and the deep dump of every package-level variable of the goawk packages after round 1 = after round 2, for the sharing programs and the C01 misc/builtins/calls/control space; the second round's results equal the first; " +
 			"(3) sharing: 2 and 3 interpreters over one Program as cooperative threads yielding at every VM instruction, all interleavings with <=2 preemptions (3 interpreters: 1 in quick), each interpreter's result must equal its single run; state = one program, transition = one parse order / execution / schedule",
 		Assumptions: []string{
 			"Go map iteration order is owned through the overlay's rewrite of every map range to vhook.Keys; orders explored are a menu per site execution, not all n! for n>3",
+			"package-level variables are registered by an init() the overlay generates from go/types' package scopes; an idempotent lazy initialisation (same value after both rounds) is not reported, any other run-time write to package-level state is",
 			"absence of data races proper is not decided here (cooperative scheduling creates happens-before edges); the exhaustive part shows absence of writes to the shared Program and interleaving-independence at instruction granularity",
 		},
 		Run:    c19Run,
